@@ -1077,11 +1077,16 @@ BOUNDS = {
              "reported by shape.mask and containing_indices, both representations): Point / Circle / Square with all parameters symbolic on 4-5 small "
              "coordinate sets (1-3 triangles, concrete dyadic side length, symbolic offsets) and on a vertex-array triangle with one symbolic vertex; "
              "Triangle / Polygon shapes: 4 concrete templates (3-4 vertices, one non-convex) under a symbolic translation, plus a Triangle with all six "
-             "vertex coordinates symbolic on one lattice triangle.",
+             "vertex coordinates symbolic on one lattice triangle. Histories: every derived-object clause is also checked after the parent "
+             "has been read (triangles, area, len, up_sample, neighborhood, for_indexes, containing_indices, iteration): with_vertices(symbolic W) "
+             "on fully read lattice sets, their vertex arrays, the symbolic triangle, the (concrete, read) mesh and a read concrete triangle, "
+             "followed by with_vertices(integer lattice). Integer-dtype vertex arrays (values ENUMERATED by the explorer, no real-valued variable): "
+             "one triangle with all six coordinates in [-1,1] (729 sets) and 16 larger odd-sum sets, two triangles sharing an edge (81 sets).",
     "thorough": "single coordinates in [-5,5]^2, ordered pairs from a 5x5 window, ordered triples from a 3x2 window, 7 larger sets (up to 15 triangles); two for_limits_and_scale ranges "
                 "(scale in [0.5, 2]); vertex arrays additionally two triangles sharing an edge with all 8 coordinates symbolic through the public methods "
                 "(4365 orderings), a second mesh, a 3-triangle strip at helper level; containment additionally a 5-gon and a sliver template, two more "
-                "coordinate sets, Triangle and 3-vertex Polygon with all vertices symbolic on an upright and an inverted lattice triangle.",
+                "coordinate sets, Triangle and 3-vertex Polygon with all vertices symbolic on an upright and an inverted lattice triangle; histories on two "
+                "triangles sharing an edge; integer-dtype triangles with coordinates in [-1,2]^6 (4096), (0,0)+[-3,3]^4 (2401), two triangles (729).",
 }
 OUTSIDE = [
     "float64 coincidence of vertices computed along different routes (np.unique on floats): the solver works in exact real arithmetic where coincident "
